@@ -1202,6 +1202,11 @@ pub broadcast group vx_axioms { axiom_cow_deref_bytes, axiom_into_bytes_view_sli
 /// only in the bodies of the parse functions (contracts/style.py): elsewhere these rewrites cost more than they give
 pub broadcast group vx_style { ax_be_nat_2, ax_be_nat_4, ax_be16_nat, ax_subrange_subrange }
 
+/// Rust guarantee: an allocation never exceeds isize::MAX bytes, so a Vec of non-zero-sized elements has fewer than
+/// usize::MAX elements (assumed; used for `len() + 1` in Packet::write_header)
+#[verifier::external_body]
+pub proof fn axiom_vec_len_bound<T>(v: &Vec<T>) ensures v@.len() <= isize::MAX {}
+
 /// vacuity canary (vx/vacuity.py): every call must be reported as a failed precondition
 pub proof fn vx_canary() requires false {}
 
